@@ -14,7 +14,9 @@ Go source mirrored (function by function):
 
 Abstractions (deliberate; see notes/C05.md):
 
-* `batchVerifier.Verify` is the parameter predicate `verifyOk : Batch → Bool` (modelled in detail by C01–C03).
+* `batchVerifier.Verify` is the parameter predicate `verifyOk : St → Batch → Bool` – it may depend on the manager /
+  database state at the moment of the proposal, as the real verifier reads orders and accounts from the store
+  (modelled in detail by `PoolModel/Batch.lean`, C01–C03; `PoolProofs/C05Verify.lean` instantiates it).
 * opaque values are tokens: account keys, outpoints, tx outputs `(value, pkScript)`, node ids are `Nat`s.
 * signatures are ideal: a signature is the pair (key, message); the message is the *sighash preimage*
   `Preimage` – which parts of the transaction it contains is a function of the sighash type, whose value is
@@ -59,7 +61,8 @@ structure Ord where
   notAllowed : List Node
 deriving DecidableEq, Repr
 
-/-- `order.AccountDiff`: `newOutpoint = some _` iff the ending state is OUTPUT_RECREATED -/
+/-- `order.AccountDiff`: `newOutpoint = some _` iff the ending state is OUTPUT_RECREATED; `newOut` is the
+(value, script) the stored account describes afterwards -/
 structure Diff where
   acct : Key
   newOutpoint : Option OutPoint
@@ -123,13 +126,19 @@ def preimage (taproot : Bool) (ht : Nat) (tx : Tx) (idx : Nat) (spent : List Out
   { taproot := taproot, ht := ht, ins := insCommitted ht tx idx, idx := idx,
     outs := outsCommitted ht tx idx, lock := tx.lock, spent := spent }
 
-/-- ideal signature: unforgeable pair (signer key, message) -/
+/-- ideal signature: unforgeable triple (signer key, the account output whose script context – p2wsh witness
+script with the tweaked keys / MuSig2 aggregate key with the expiry-leaf tweak – the signing key material was
+derived for, message) -/
 structure Sig where
   key : Key
+  forOut : Out
   msg : Preimage
 deriving DecidableEq, Repr
 
-def Sig.verify (pk : Key) (m : Preimage) (σ : Sig) : Bool := σ.key == pk && σ.msg == m
+/-- a signature helps to spend output `out` with message `m` iff it was made by `pk` for exactly that output's
+script context over exactly `m` -/
+def Sig.verify (pk : Key) (out : Out) (m : Preimage) (σ : Sig) : Bool :=
+  σ.key == pk && σ.forOut == out && σ.msg == m
 
 /-! ## Database and manager state -/
 
@@ -190,8 +199,8 @@ def checkMatches (db : DB) : List (Nonce × Node) → Option ValErr
       if isNodeIDAValidMatch node o.allowed o.notAllowed then checkMatches db rest else some .match
 
 /-- `manager.OrderMatchValidate`: pendingBatch is assigned only on the success path -/
-def validate (verifyOk : Batch → Bool) (s : St) (b : Batch) : St × Option ValErr :=
-  if !verifyOk b then (s, some .verify)
+def validate (verifyOk : St → Batch → Bool) (s : St) (b : Batch) : St × Option ValErr :=
+  if !verifyOk s b then (s, some .verify)
   else match checkMatches s.db b.matched with
     | some e => (s, some e)
     | none => ({ s with pending := some b }, none)
@@ -239,7 +248,7 @@ def signLoop (db : DB) (b : Batch) (f : Faults) :
         if a.version ≥ Pool.Gen.C05.versionTaprootEnabled then
           -- signInputMuSig2
           if !b.nonces.contains d.acct then (.err .nonce, c1) else
-          -- MuSig2CreateSession
+          -- MuSig2CreateSession, with the keys / expiry / secret of the STORED account
           let c2 : Ctr := { c1 with calls := c1.calls + 1 }
           if f.sf = some c1.calls then (.err .signer, c2) else
           -- TaprootMuSig2Sign: previousOutputs[idx] for every input
@@ -247,13 +256,13 @@ def signLoop (db : DB) (b : Batch) (f : Faults) :
           -- MuSig2Sign
           let c3 : Ctr := { c2 with calls := c2.calls + 1 }
           if f.sf = some c2.calls then (.err .signer, c3) else
-          let σ : Sig := ⟨a.key, preimage true htTaproot b.tx idx (b.prevOuts.take b.tx.ins.length)⟩
+          let σ : Sig := ⟨a.key, a.out, preimage true htTaproot b.tx idx (b.prevOuts.take b.tx.ins.length)⟩
           signLoop db b f rest c3 (σ :: sigs) (a.key :: nonces)
         else
           -- SignOutputRaw with HashType from the source, Output = the account's current output
           let c2 : Ctr := { c1 with calls := c1.calls + 1 }
           if f.sf = some c1.calls then (.err .signer, c2) else
-          let σ : Sig := ⟨a.key, preimage false htP2wsh b.tx idx [a.out]⟩
+          let σ : Sig := ⟨a.key, a.out, preimage false htP2wsh b.tx idx [a.out]⟩
           signLoop db b f rest c2 (σ :: sigs) nonces
 
 def signerSign (db : DB) (b : Batch) (f : Faults) : SignRes × Ctr :=
@@ -271,7 +280,7 @@ def stagedRow (a : Acct) (d : Diff) : Acct :=
   match d.newOutpoint with
   | some op => { a with outpoint := op, out := d.newOut.getD a.out,
                         version := if d.newVersion > a.version then d.newVersion else a.version }
-  | none => a
+  | none => { a with out := d.newOut.getD a.out }   -- used up: same outpoint and script, value := ending balance
 
 def storerRows (db : DB) (f : Faults) : List Diff → Nat → Option (List Acct)
   | [], _ => some []
@@ -414,14 +423,14 @@ deriving DecidableEq, Repr
 def attachAux (s : St) (nonces : List Key) (prev : List Out) : St :=
   { s with pending := s.pending.map fun b => { b with nonces := nonces, prevOuts := prev } }
 
-def step (verifyOk : Batch → Bool) (s : St) : Op → St × Res
+def step (verifyOk : St → Batch → Bool) (s : St) : Op → St × Res
   | .validate b => let r := validate verifyOk s b; (r.1, .val r.2)
   | .sign f nonces prev => let r := batchSign (attachAux s nonces prev) f; (r.1, .sign r.2)
   | .finalize id mf => let r := finalize s id mf; (r.1, .fin r.2)
   | .unstage => (unstage s, .unstaged)
 
 /-- run a history, returning the state after it and the per-op results -/
-def run (verifyOk : Batch → Bool) : St → List Op → St × List Res
+def run (verifyOk : St → Batch → Bool) : St → List Op → St × List Res
   | s, [] => (s, [])
   | s, op :: ops =>
     let r := step verifyOk s op
@@ -438,7 +447,7 @@ inductive Ev
   | parseSign
   | chanSetup
   | batchSign (ok : Bool)
-  | sendSign (sigs : List Sig) (nonces : List Key)
+  | sendSign (sigs : List Sig) (nonces : List Key) (stagedAtSend : Option Staged)
   | sendReject
 deriving DecidableEq, Repr
 
@@ -462,45 +471,80 @@ structure HS where
   panicked : Bool
 deriving Repr
 
-def hsStmt (env : HEnv) (x : HS) (stmt : List String) : HS :=
+/-- the statements of the Sign case that matter, parsed from the regenerated string form -/
+inductive HStmt
+  | pendingCall                 -- batch := s.orderManager.PendingBatch()
+  | ifnilBatch (rejects : Bool) -- if batch == nil { [sendRejectUnparsedBatch]; return }
+  | parse                       -- order.ParseRPCSign(msg.Sign)
+  | assignNonces                -- batch.ServerNonces = serverNonces
+  | assignPrev                  -- batch.PreviousOutputs = prevOutputs
+  | chanSetup                   -- s.server.fundingManager.BatchChannelSetup(batch)
+  | batchSign                   -- sigs, nonces, err := s.orderManager.BatchSign()
+  | sendSign                    -- err = s.sendSignBatch(batch, sigs, nonces, channelKeys)
+  | iferrReject                 -- if err != nil { return s.sendRejectBatch(batch, err) }
+  | iferrReturn                 -- if err != nil { return … }
+  | ret                         -- return
+  | skip                        -- anything without an effect the model tracks
+deriving DecidableEq, Repr
+
+def parseH : List String → HStmt
+  | ["call", "s.orderManager.PendingBatch", _] => .pendingCall
+  | ["ifnil", "batch", calls, _] => .ifnilBatch (calls == "s.sendRejectUnparsedBatch")
+  | ["call", "order.ParseRPCSign", _] => .parse
+  | ["assign", "batch.ServerNonces", _] => .assignNonces
+  | ["assign", "batch.PreviousOutputs", _] => .assignPrev
+  | ["call", "s.server.fundingManager.BatchChannelSetup", _] => .chanSetup
+  | ["call", "s.orderManager.BatchSign", _] => .batchSign
+  | ["call", "s.sendSignBatch", "batch,sigs,nonces,channelKeys"] => .sendSign
+  | ["iferr", "s.sendRejectBatch", _] => .iferrReject
+  | ["iferr", _, _] => .iferrReturn
+  | ["return", _] => .ret
+  | _ => .skip
+
+def hStep (env : HEnv) (x : HS) (stmt : HStmt) : HS :=
   if x.done then x else
   match stmt with
-  | ["call", "s.orderManager.PendingBatch", _] => x
-  | ["ifnil", "batch", calls, _] =>
+  | .pendingCall => x
+  | .ifnilBatch rejects =>
     -- `if batch == nil { …; return s.sendRejectUnparsedBatch(msg.Sign.BatchId, err) }` (present since the
     -- fix "rpcserver: reject a sign message that arrives without a pending batch")
     if x.st.pending.isSome then x
-    else if calls = "s.sendRejectUnparsedBatch" then { x with trace := .sendReject :: x.trace, done := true }
+    else if rejects then { x with trace := .sendReject :: x.trace, done := true }
     else { x with done := true }
-  | ["call", "order.ParseRPCSign", _] =>
-    { x with trace := .parseSign :: x.trace, err := !env.parseOk }
-  | ["assign", "batch.ServerNonces", _] =>
+  | .parse => { x with trace := .parseSign :: x.trace, err := !env.parseOk }
+  | .assignNonces =>
     if x.st.pending.isNone then { x with done := true, panicked := true }
     else { x with st := attachAux x.st env.nonces ((x.st.pending.map (·.prevOuts)).getD []) }
-  | ["assign", "batch.PreviousOutputs", _] =>
+  | .assignPrev =>
     if x.st.pending.isNone then { x with done := true, panicked := true }
     else { x with st := attachAux x.st ((x.st.pending.map (·.nonces)).getD []) env.prev }
-  | ["call", "s.server.fundingManager.BatchChannelSetup", _] =>
-    { x with trace := .chanSetup :: x.trace, err := !env.chanOk }
-  | ["call", "s.orderManager.BatchSign", _] =>
+  | .chanSetup => { x with trace := .chanSetup :: x.trace, err := !env.chanOk }
+  | .batchSign =>
     match batchSign x.st env.faults with
     | (st', .ok sigs nonces) =>
       { x with st := st', trace := .batchSign true :: x.trace, err := false, sigs := sigs, tnonces := nonces }
     | (st', .panic) => { x with st := st', done := true, panicked := true }
     | (st', _) => { x with st := st', trace := .batchSign false :: x.trace, err := true, sigs := [], tnonces := [] }
-  | ["call", "s.sendSignBatch", "batch,sigs,nonces,channelKeys"] =>
-    { x with trace := .sendSign x.sigs x.tnonces :: x.trace, err := !env.sendOk }
-  | ["iferr", "s.sendRejectBatch", _] =>
+  | .sendSign =>
+    -- the message carries the signature variables; ghost: the staging area at the moment of the send
+    { x with trace := .sendSign x.sigs x.tnonces x.st.db.staged :: x.trace, err := !env.sendOk }
+  | .iferrReject =>
     if !x.err then x
     else if x.st.pending.isNone then { x with done := true, panicked := true }   -- batch.MatchedOrders on nil
     else { x with trace := .sendReject :: x.trace, done := true }
-  | ["iferr", _, _] => if x.err then { x with done := true } else x
-  | ["return", _] => { x with done := true }
-  | _ => x
+  | .iferrReturn => if x.err then { x with done := true } else x
+  | .ret => { x with done := true }
+  | .skip => x
+
+def hsStmt (env : HEnv) (x : HS) (stmt : List String) : HS := hStep env x (parseH stmt)
+
+def hInit (s : St) : HS :=
+  { st := s, trace := [], err := false, sigs := [], tnonces := [], done := false, panicked := false }
+
+def handleSignParsed (prog : List HStmt) (s : St) (env : HEnv) : HS := prog.foldl (hStep env) (hInit s)
 
 def handleSignWith (prog : List (List String)) (s : St) (env : HEnv) : HS :=
-  prog.foldl (hsStmt env)
-    { st := s, trace := [], err := false, sigs := [], tnonces := [], done := false, panicked := false }
+  handleSignParsed (prog.map parseH) s env
 
 /-- the `Sign` case as the Go source orders it today; `.trace.reverse` is the chronological trace -/
 def handleSign (s : St) (env : HEnv) : HS := handleSignWith Pool.Gen.C05.handlerSignProg s env
